@@ -55,11 +55,34 @@ impl Obs {
 
     /// write, drop, load: the loaded member must equal the saved one and replaces it.
     fn save_reload(&mut self, w: &mut World, m: usize, site: &str) -> CaseResult {
+        // one time in three the application keeps the ratchet tree itself (tree-less write / load with tree); a twin
+        // reads whole snapshots from a storage copy, so members with a twin use the ordinary pair
+        let tree_less = self.rng.below(3) == 0 && !w.has_twin(m);
+        let site = &format!("{site}{}", if tree_less { "_tree_less" } else { "" });
+        if tree_less {
+            let tree = w.save_tree_less(m).map_err(|e| op_failure(P, "write_to_storage_without_ratchet_tree", &e))?;
+            let s = snap(w, m)?;
+            self.saved.insert(m, (s, w.epoch));
+            self.ev.class("writes");
+            let before = self.saved[&m].0.clone();
+            if let Err(e) = w.reload_with_tree(m, &tree) {
+                return Err(op_failure(P, "load_group_with_ratchet_tree", &e));
+            }
+            // a later crash check loads the whole snapshot: write it again in the ordinary way afterwards
+            let r = self.compare_after_reload(w, m, site, &before);
+            self.save(w, m)?;
+            return r;
+        }
         self.save(w, m)?;
         let before = self.saved[&m].0.clone();
         if let Err(e) = w.reload(m) {
             return Err(op_failure(P, "load_group", &e));
         }
+        self.compare_after_reload(w, m, site, &before)
+    }
+
+    fn compare_after_reload(&mut self, w: &mut World, m: usize, site: &str, before: &VerifState) -> CaseResult {
+        let before = before.clone();
         let after = snap(w, m)?;
         let d = written_diff(&before, &after);
         self.reloads += 1;
@@ -214,6 +237,23 @@ impl Observer for Obs {
     fn end(&mut self, w: &mut World, _st: &HistoryStats) -> CaseResult {
         for m in w.members() {
             self.crash_check(w, m)?;
+        }
+        // a new process that opens the same in-memory store with another retention setting sees what was written
+        for m in w.members() {
+            let party = &w.parties[m];
+            if let Some(mem) = &party.gstore.mem {
+                let before = mem.stored_groups();
+                match mem.clone().with_max_epoch_retention(party.gstore.retention + 2) {
+                    Ok(reopened) => {
+                        let after = reopened.stored_groups();
+                        if before != after {
+                            return Err(fail("store_reopened_with_other_retention_lost_its_groups", format!("party {m}: {} groups before, {} after", before.len(), after.len())));
+                        }
+                        self.ev.class("in_memory_store_reopened_with_other_retention");
+                    }
+                    Err(e) => return Err(fail("with_max_epoch_retention_failed", format!("{e:?}"))),
+                }
+            }
         }
         self.ev.class_n("twin_lockstep_checks", w.twin_checks);
         let compared: u64 = w.parties.iter().map(|p| p.gstore.tee_compared.load(std::sync::atomic::Ordering::Relaxed)).sum();
